@@ -192,6 +192,7 @@ def set_dynamic_evaluate_fn(
 
 def get_dynamic_evaluate_fn() -> Optional[Callable[[HyperValue], Any]]:
   """Gets current dynamic evaluate function."""
-  return utils.thread_local_get(
-      _TLS_KEY_DYNAMIC_EVALUATE_FN, _global_dynamic_evaluate_fn
-  )
+  # NOTE: leaving a per-thread scope resets the thread-local function to None,
+  # which should not shadow a process-wide function installed later.
+  fn = utils.thread_local_get(_TLS_KEY_DYNAMIC_EVALUATE_FN, None)
+  return fn if fn is not None else _global_dynamic_evaluate_fn
